@@ -1042,7 +1042,7 @@ func TestVerif_C44(t *testing.T) {
 			paths: paths, flags: allFlags, maxH: vx.Pick(c, 1, 2),
 			write: []string{"", "ab", "cdefg"}, read: []int{1, 10},
 			seek: []int64{-1, 0, 1, 10}, rdir: []int{-1, 0, 1},
-			depth: vx.Pick(c, 4, 5),
+			depth: vx.Pick(c, 4, 6),
 			seeds: [][]c44Op{nil, {mk("/a"), mk("/b")},
 				{mk("/a"), {K: "open", P: "/a/x", F: "RDWR|CREATE"}, {K: "write", H: 0, D: "cdefg"}, {K: "close", H: 0}},
 				{{K: "open", P: "/a", F: "RDWR|CREATE"}, {K: "write", H: 0, D: "cdefg"}}},
